@@ -25,7 +25,8 @@ disjoint from the survivors).
 * guards discharged for the concrete steps: `bump_guard`, `refill_guard`, `cell_guard`, `los_guard`
   (allocators), `nextHole_spec` + `immix_hole_avoids_live` (Immix holes), `write_guard`,
   `setRoot_guard`, `publish_guard` (mutator), `sweep_guard` (a release that frees exactly the
-  unmarked objects' memory, given `trace_reach_exact`).
+  unmarked objects' memory, given `trace_reach_exact`), `fromspace_release_guard` (CopySpace),
+  `immix_release_guard` (holes of free lines of a recycled block).
 -/
 namespace Mmtk.AllocModel
 open Mmtk.Trace (Snap Obj Reach WF)
@@ -433,6 +434,100 @@ theorem immix_alloc_avoids_live (lineFree : Nat → Bool) (n search s e base L :
   simp only [Region.disjoint, Region.stop] at this ⊢
   omega
 
+/-! ### what a collection hands back: whole from-spaces, and the holes of recycled Immix blocks -/
+
+/-- **fromspace_release_guard** (`CopySpace::release` + `MonotonePageResource::reset`; nursery of the
+generational plans): all survivors are copies that the copy allocators placed in a to-space `Y`
+disjoint from the from-space `X`; then handing back all of `X` is a guarded `gc` step. -/
+theorem fromspace_release_guard {st : MState} (S' : Snap) (keep : Nat → Bool) (X Y : Region)
+    (hlive : ∀ y, Reach S' y → keep y = true ∧ ∃ r, (⟨.obj y, r⟩ : Entry) ∈ st.mem)
+    (hXY : X.disjoint Y) (hsurv : ∀ e, e ∈ survivors st.mem keep → e.reg.sub Y) :
+    Guard st (.gc S' keep [X]) := by
+  refine ⟨hlive, by simp, ?_⟩
+  intro f hf e he
+  simp only [List.mem_cons, List.mem_nil_iff, or_false] at hf
+  subst hf
+  exact Region.disjoint_of_sub_right (hsurv e he) hXY
+
+theorem allHoles_spec (lineFree : Nat → Bool) (n fuel search : Nat) (h : Nat × Nat)
+    (hh : h ∈ allHoles lineFree n fuel search) :
+    search ≤ h.1 ∧ h.1 < h.2 ∧ h.2 ≤ n ∧ ∀ k, h.1 ≤ k → k < h.2 → lineFree k = true := by
+  induction fuel generalizing search with
+  | zero => cases hh
+  | succ fuel ih =>
+    simp only [allHoles] at hh
+    cases hn : nextHole lineFree n search with
+    | none => simp [hn] at hh
+    | some se =>
+      obtain ⟨s, e⟩ := se
+      simp only [hn, List.mem_cons] at hh
+      obtain ⟨a1, a2, a3, a4⟩ := nextHole_spec lineFree n search s e hn
+      rcases hh with rfl | hh
+      · exact ⟨a1, a2, a3, a4⟩
+      · obtain ⟨b1, b2, b3, b4⟩ := ih e hh
+        exact ⟨by omega, b2, b3, b4⟩
+
+theorem allHoles_sorted (lineFree : Nat → Bool) (n fuel search : Nat) :
+    (allHoles lineFree n fuel search).Pairwise (fun a b => a.2 ≤ b.1) := by
+  induction fuel generalizing search with
+  | zero => exact List.Pairwise.nil
+  | succ fuel ih =>
+    simp only [allHoles]
+    cases hn : nextHole lineFree n search with
+    | none => exact List.Pairwise.nil
+    | some se =>
+      obtain ⟨s, e⟩ := se
+      simp only [List.pairwise_cons]
+      exact ⟨fun b hb => (allHoles_spec lineFree n fuel e b hb).1, ih e⟩
+
+theorem holeRegion_stop (base L : Nat) (h : Nat × Nat) (hle : h.1 ≤ h.2) :
+    (holeRegion base L h).stop = base + h.2 * L := by
+  simp only [holeRegion, Region.stop]
+  have : h.1 * L + (h.2 - h.1) * L = h.2 * L := by
+    rw [← Nat.add_mul, Nat.add_sub_cancel' hle]
+  omega
+
+/-- **immix_release_guard**: after a collection a recycled block (at `base`, `n` lines of `L` bytes)
+contributes exactly its holes of free lines to the free memory.  If the line marks are conservative
+— every survivor (non-empty) touches no free line — this is a guarded `gc` step: the holes are
+pairwise disjoint and share no byte with any survivor. -/
+theorem immix_release_guard {st : MState} (S' : Snap) (keep : Nat → Bool)
+    (lineFree : Nat → Bool) (n base L : Nat)
+    (hlive : ∀ y, Reach S' y → keep y = true ∧ ∃ r, (⟨.obj y, r⟩ : Entry) ∈ st.mem)
+    (hmarks : ∀ e, e ∈ survivors st.mem keep →
+      0 < e.reg.size ∧ ∀ k, k < n → lineFree k = true → (lineRegion base L k).disjoint e.reg) :
+    Guard st (.gc S' keep ((allHoles lineFree n n 0).map (holeRegion base L))) := by
+  refine ⟨hlive, ?_, ?_⟩
+  · rw [List.pairwise_map]
+    have hs := allHoles_sorted lineFree n n 0
+    have hall : ∀ h, h ∈ allHoles lineFree n n 0 → h.1 < h.2 :=
+      fun h hh => (allHoles_spec lineFree n n 0 h hh).2.1
+    -- sorted holes with `a.2 ≤ b.1` are disjoint regions
+    revert hs hall
+    generalize allHoles lineFree n n 0 = l
+    intro hs hall
+    induction l with
+    | nil => exact List.Pairwise.nil
+    | cons a l ih =>
+      simp only [List.pairwise_cons] at hs ⊢
+      refine ⟨?_, ih hs.2 (fun h hh => hall h (List.mem_cons_of_mem _ hh))⟩
+      intro b hb
+      left
+      rw [holeRegion_stop base L a (Nat.le_of_lt (hall a List.mem_cons_self))]
+      have : a.2 * L ≤ b.1 * L := Nat.mul_le_mul_right L (hs.1 b hb)
+      simp only [holeRegion]; omega
+  · intro f hf e he
+    obtain ⟨h, hh, rfl⟩ := List.mem_map.mp hf
+    obtain ⟨_, a2, a3, a4⟩ := allHoles_spec lineFree n n 0 h hh
+    obtain ⟨hpos, hfree⟩ := hmarks e he
+    have := immix_hole_avoids_live base L h.1 h.2 a2 e.reg hpos
+      (fun k h1 hk => hfree k (by omega) (a4 k h1 hk))
+    simp only [holeBump] at this
+    simp only [Region.disjoint]
+    rw [holeRegion_stop base L h (Nat.le_of_lt a2)]
+    simp only [holeRegion]
+    omega
+
 /-! ### free-list cells -/
 
 theorem cell_disjoint (base c k k' : Nat) (h : k ≠ k') :
@@ -639,7 +734,7 @@ example : (⟨136, 16⟩ : Region).disjoint ⟨0, 24⟩ := by
 example :
     let lf : Nat → Bool := fun k => k != 0 && k != 1 && k != 4
     nextHole lf 8 0 = some (2, 4) ∧ nextHole lf 8 4 = some (5, 8) ∧ nextHole (fun _ => false) 8 0 = none ∧
-    holeBump 1024 256 2 4 = ⟨1536, 2048⟩ := by decide
+    holeBump 1024 256 2 4 = ⟨1536, 2048⟩ ∧ allHoles lf 8 8 0 = [(2, 4), (5, 8)] := by decide
 
 /-- free-list block: cells popped in free-list order -/
 example :
